@@ -41,7 +41,7 @@ REQUIRED_THEOREMS = ["Gv.Props.C03." + n for n in [
     "phylip_counterexample_alloc_panic", "phylip_patched_witness",
     "partition_counterexample_overflow_panic", "partition_patched_witness", "addRange_in_bounds", "newPSet_inv",
     "partition_outcome", "phylip_outcome_partial", "phylip_multi_wellformed", "clustal_outcome_partial",
-    "nexus_outcome_partial"]]
+    "nexus_outcome_partial", "clustal_no_panic", "phylip_no_panic", "nexus_no_panic"]]
 TRUSTED = ["bufio.Reader / UTF-8 rune decoding (inputs with bytes >= 128 are judged by the predicate only)",
            "python watchdog: hang = no answer within TIMEOUT",
            "tools/extract/fmtfacts.go: recognises the proposed guards syntactically; the models are parametric in these facts"]
@@ -63,12 +63,15 @@ PARTIAL = [
     "strings (fasta_outcome_fixed, stockholm_outcome_fixed, partition_outcome); the unrepaired variants are covered by "
     "*_partial theorems and kernel-evaluated counter-examples",
     "Phylip (strict/relaxed, multi): proved: every returned alignment is well formed (phylip_outcome_partial, "
-    "phylip_multi_wellformed); OPEN: never panic / never hang for the repaired parser (fuel sufficiency of the block loops)",
+    "phylip_multi_wellformed) and the repaired parser never panics (phylip_no_panic); OPEN: never hang (fuel sufficiency of "
+    "the block loops)",
     "Nexus: proved: a success is non-empty, rectangular, distinct names, and well formed once empty rows are rejected "
-    "(nexus_outcome_partial); OPEN: never panic / never hang for the repaired parser; consistency with declared ntax/nchar "
+    "(nexus_outcome_partial), never panics, never exits (nexus_no_panic); OPEN: never hang for the repaired parser "
+    "(fuel sufficiency of the command loops); consistency with declared ntax/nchar "
     "is checked by the oracle predicate only",
-    "Clustal: proved: a success is non-empty, rectangular, distinct names (clustal_outcome_partial); OPEN: at least one "
-    "column (needs the loop invariant that sequence tokens are non-empty), never panic / never hang for the repaired parser",
+    "Clustal: proved: a success is non-empty, rectangular, distinct names (clustal_outcome_partial), the repaired parser "
+    "never panics (clustal_no_panic); OPEN: at least one column (needs the loop invariant that sequence tokens are "
+    "non-empty), never hang",
     "ParseAlignmentAuto: modelled in the oracle as a dispatch over the single-parser models; no separate theorem",
     "inputs with bytes >= 128 (UTF-8 decoding) and Phylip allocations of 2^27..2^44 entries: predicate only, no model",
 ]
